@@ -27,33 +27,46 @@ open Asn1c.Proofs.Integer Asn1c.Proofs.Native
     *any* `INTEGER_t` (minimal or padded, any length) denoting `v`. -/
 theorem native_der_eq_wide (t : Tag) (v : Int) (hv : fitsS64 v) (bs : Bytes) (hw : Bytes.wf bs)
     (hne : bs ≠ []) (hbs : twosVal bs = v) :
-    NativeInteger_encode_der t (wordOfLong v) = INTEGER_encode_der t bs := by
+    NativeInteger_encode_der false t (wordOfLong v) = INTEGER_encode_der t bs := by
   unfold NativeInteger_encode_der INTEGER_encode_der INTEGER_der_content
-  rw [nativeOctets_wordOfLong, strip_eq_imax2INTEGER bs hw hne v hbs hv]
+  rw [nativeFakeINTEGER_signed, nativeOctets_wordOfLong, strip_eq_imax2INTEGER bs hw hne v hbs hv]
   rfl
 
 /-- the contents octets the native encoder emits are the X.690 §8.3 canonical form of `v` -/
 theorem native_der_content_canonical (v : Int) (hv : fitsS64 v) :
-    NativeInteger_der_content (wordOfLong v) ≠ [] ∧ Bytes.wf (NativeInteger_der_content (wordOfLong v)) ∧
-    MinimalTwos (NativeInteger_der_content (wordOfLong v)) ∧
-    twosVal (NativeInteger_der_content (wordOfLong v)) = v :=
-  Asn1c.Props.C16.imax2INTEGER_spec v hv
+    NativeInteger_der_content false (wordOfLong v) ≠ [] ∧ Bytes.wf (NativeInteger_der_content false (wordOfLong v)) ∧
+    MinimalTwos (NativeInteger_der_content false (wordOfLong v)) ∧
+    twosVal (NativeInteger_der_content false (wordOfLong v)) = v := by
+  unfold NativeInteger_der_content INTEGER_der_content
+  rw [nativeFakeINTEGER_signed, nativeOctets_wordOfLong]
+  exact Asn1c.Props.C16.imax2INTEGER_spec v hv
 
-/-- **unsigned native** (`field_unsigned`, e.g. `INTEGER (0..MAX)`), partial: same DER as the wide type
-    for every value below 2^63 (above: finding F20, `native_der_unsigned_cex`). -/
-theorem native_der_unsigned_eq_wide_partial (t : Tag) (u : Nat) (hu : u < 2 ^ 63) (bs : Bytes)
+/-- **unsigned native** (`field_unsigned`, e.g. `INTEGER (0..MAX)`): same DER as the wide type for *every*
+    `unsigned long` value `u < 2^64` and any `INTEGER_t` denoting `u` (finding F20 repaired: the former
+    `native_der_unsigned_eq_wide_partial` needed `u < 2^63`). -/
+theorem native_der_unsigned_eq_wide (t : Tag) (u : Nat) (hu : u < 2 ^ 64) (bs : Bytes)
     (hw : Bytes.wf bs) (hne : bs ≠ []) (hbs : twosVal bs = u) :
-    NativeInteger_encode_der t u = INTEGER_encode_der t bs := by
-  have := native_der_eq_wide t (u : Int) (by unfold fitsS64; omega) bs hw hne hbs
-  rwa [wordOfLong_nat u (by omega)] at this
+    NativeInteger_encode_der true t u = INTEGER_encode_der t bs := by
+  obtain ⟨n1, n2, n3⟩ := nativeFakeINTEGER_unsigned_spec u hu
+  unfold NativeInteger_encode_der INTEGER_encode_der INTEGER_der_content
+  rw [strip_eq_of_val _ bs n2 hw n1 hne (by rw [n3, hbs])]
 
-/-- F20: the `unsigned long` 2^63 is DER-encoded by the native type as `80 00 00 00 00 00 00 00`,
-    which denotes −2^63; the wide type holding 2^63 (`00 80 00 …`) emits `00 80 00 …`. -/
-theorem native_der_unsigned_cex :
-    NativeInteger_der_content (2 ^ 63) = [0x80, 0, 0, 0, 0, 0, 0, 0] ∧
-    twosVal (NativeInteger_der_content (2 ^ 63)) = -(2 ^ 63) ∧
-    twosVal [0, 0x80, 0, 0, 0, 0, 0, 0, 0] = 2 ^ 63 ∧
-    INTEGER_der_content [0, 0x80, 0, 0, 0, 0, 0, 0, 0] = [0, 0x80, 0, 0, 0, 0, 0, 0, 0] := by decide
+/-- … and its contents octets are the X.690 §8.3 canonical form of `u`, over the whole unsigned range -/
+theorem native_der_unsigned_content_canonical (u : Nat) (hu : u < 2 ^ 64) :
+    NativeInteger_der_content true u ≠ [] ∧ Bytes.wf (NativeInteger_der_content true u) ∧
+    MinimalTwos (NativeInteger_der_content true u) ∧ twosVal (NativeInteger_der_content true u) = u := by
+  obtain ⟨n1, n2, n3⟩ := nativeFakeINTEGER_unsigned_spec u hu
+  unfold NativeInteger_der_content INTEGER_der_content
+  exact ⟨strip_ne_nil _ n1, strip_wf _ n2, strip_minimal _, by rw [strip_val _ n2, n3]⟩
+
+/-- the former F20 witness: the `unsigned long` 2^63 is now DER-encoded by the native type as
+    `00 80 00 00 00 00 00 00 00` (= 2^63), exactly what the wide type holding 2^63 emits;
+    2^64 − 1 likewise (`00 FF FF FF FF FF FF FF FF`). -/
+theorem native_der_unsigned_witness :
+    NativeInteger_der_content true (2 ^ 63) = [0, 0x80, 0, 0, 0, 0, 0, 0, 0] ∧
+    twosVal (NativeInteger_der_content true (2 ^ 63)) = 2 ^ 63 ∧
+    INTEGER_der_content [0, 0x80, 0, 0, 0, 0, 0, 0, 0] = NativeInteger_der_content true (2 ^ 63) ∧
+    NativeInteger_der_content true (2 ^ 64 - 1) = [0, 255, 255, 255, 255, 255, 255, 255, 255] := by decide
 
 /-- **decoding the same contents octets gives the same abstract value** when the native type can
     hold it: the native BER decoder succeeds and its cell denotes the value of the octets the wide
@@ -74,34 +87,62 @@ theorem native_decode_out_of_range_fails (c : Bytes) (hw : Bytes.wf c) (hf : ¬ 
   unfold NativeInteger_decode_ber_content
   rw [INTEGER2long_spec c hw, if_neg hf]; rfl
 
-/-- unsigned native decoder, partial: exact for contents denoting 0 ≤ v < 2^64
-    (negative contents: finding F3 on this path, `native_decode_unsigned_negative_cex`). -/
-theorem native_decode_unsigned_eq_wide_partial (c : Bytes) (hw : Bytes.wf c) (h0 : 0 ≤ twosVal c)
-    (h1 : twosVal c < 2 ^ 64) :
+/-- unsigned native decoder: exact for all contents denoting 0 ≤ v < 2^64 (any length, minimal or not) -/
+theorem native_decode_unsigned_eq_wide (c : Bytes) (hw : Bytes.wf c) (hf : fitsU64 (twosVal c)) :
     ∃ w, NativeInteger_decode_ber_content true c = .ok w ∧
       nativeValue true w = twosVal (INTEGER_decode_ber_content c) := by
   refine ⟨(twosVal c).toNat, ?_, ?_⟩
   · unfold NativeInteger_decode_ber_content
     simp only [if_true]
-    exact INTEGER2ulong_partial c hw h0 h1
+    exact INTEGER2ulong_fits c hw hf
   · unfold nativeValue INTEGER_decode_ber_content
+    unfold fitsU64 at hf
     simp only [if_true]; omega
 
-/-- F3 through `NativeInteger_decode_ber`: contents `FF` (−1) decode to 255 in an unsigned native. -/
-theorem native_decode_unsigned_negative_cex :
-    twosVal [255] = -1 ∧ NativeInteger_decode_ber_content true [255] = .ok 255 := by decide
+/-- … and every other contents, in particular every *negative* INTEGER, makes it fail (RC_FAIL)
+    instead of storing a wrapped value (finding F3 repaired on this path: the former
+    `native_decode_unsigned_negative_cex` had `FF` decode to 255). -/
+theorem native_decode_unsigned_out_of_range_fails (c : Bytes) (hw : Bytes.wf c) (hf : ¬ fitsU64 (twosVal c)) :
+    NativeInteger_decode_ber_content true c = .erange := by
+  unfold NativeInteger_decode_ber_content
+  simp only [if_true]
+  rw [Asn1c.Props.C16.INTEGER2ulong_spec c hw, if_neg hf]
+
+/-- the former F3 witness through `NativeInteger_decode_ber`: contents `FF` (−1), and the former F20
+    output `80 00 00 00 00 00 00 00` (−2^63), are rejected by an unsigned native. -/
+theorem native_decode_unsigned_negative_witness :
+    twosVal [255] = -1 ∧ NativeInteger_decode_ber_content true [255] = .erange ∧
+    NativeInteger_decode_ber_content true [0x80, 0, 0, 0, 0, 0, 0, 0] = .erange := by decide
 
 /-- **cross decoding, DER**: each representation decodes the other's DER contents to `v`. -/
 theorem cross_decode_der (v : Int) (hv : fitsS64 v) (bs : Bytes) (hw : Bytes.wf bs)
     (hbs : twosVal bs = v) :
     (∃ w, NativeInteger_decode_ber_content false (INTEGER_der_content bs) = .ok w ∧ nativeValue false w = v) ∧
-    twosVal (INTEGER_decode_ber_content (NativeInteger_der_content (wordOfLong v))) = v := by
+    twosVal (INTEGER_decode_ber_content (NativeInteger_der_content false (wordOfLong v))) = v := by
   constructor
   · have hsw := strip_wf bs hw
     have hsv : twosVal (strip bs) = v := by rw [strip_val bs hw, hbs]
     obtain ⟨w, h1, h2⟩ := native_decode_eq_wide (strip bs) hsw (by rw [hsv]; exact hv)
     exact ⟨w, h1, by rw [h2]; exact hsv⟩
   · exact (native_der_content_canonical v hv).2.2.2
+
+/-- **cross decoding, DER, unsigned native**: likewise over the whole `unsigned long` range, and the
+    native decoder reads back its own encoder's output (the F20/F3 pair no longer has to cancel). -/
+theorem cross_decode_der_unsigned (u : Nat) (hu : u < 2 ^ 64) (bs : Bytes) (hw : Bytes.wf bs)
+    (hbs : twosVal bs = u) :
+    (∃ w, NativeInteger_decode_ber_content true (INTEGER_der_content bs) = .ok w ∧ nativeValue true w = u) ∧
+    twosVal (INTEGER_decode_ber_content (NativeInteger_der_content true u)) = u ∧
+    NativeInteger_decode_ber_content true (NativeInteger_der_content true u) = .ok u := by
+  obtain ⟨_, c2, _, c4⟩ := native_der_unsigned_content_canonical u hu
+  refine ⟨?_, c4, ?_⟩
+  · have hsw := strip_wf bs hw
+    have hsv : twosVal (strip bs) = u := by rw [strip_val bs hw, hbs]
+    obtain ⟨w, h1, h2⟩ := native_decode_unsigned_eq_wide (strip bs) hsw (by rw [hsv]; unfold fitsU64; omega)
+    exact ⟨w, h1, by rw [h2]; exact hsv⟩
+  · unfold NativeInteger_decode_ber_content
+    simp only [if_true]
+    rw [INTEGER2ulong_fits _ c2 (by rw [c4]; unfold fitsU64; omega), c4]
+    simp
 
 /-! ### OER / UPER / XER of INTEGER: the native codecs build a temporary INTEGER and delegate -/
 
@@ -128,6 +169,15 @@ theorem nativeToINTEGER_eq_wide (unsigned : Bool) (v : Int) (hv : fitsS64 v) (bs
   rw [e, toSigned64_wordOfLong v hv]
   exact (minimal_eq_imax2INTEGER bs hw hne hm v hbs hv).symm
 
+/-- … for a `field_unsigned` cell over the whole `unsigned long` range (`asn_ulong2INTEGER`, F2 repaired) -/
+theorem nativeToINTEGER_unsigned_eq_wide (u : Nat) (hu : u < 2 ^ 64) (bs : Bytes)
+    (hw : Bytes.wf bs) (hne : bs ≠ []) (hm : MinimalTwos bs) (hbs : twosVal bs = u) :
+    nativeToINTEGER true u = bs := by
+  obtain ⟨n1, n2, n3, n4⟩ := Asn1c.Props.C16.ulong2INTEGER_spec u hu
+  unfold nativeToINTEGER
+  simp only [if_true]
+  exact minimal_unique _ _ n2 hw n1 hne n3 hm (by rw [n4, hbs])
+
 /-- **-fwide-types does not change OER**: same octets (or the same failure) from the native cell and
     from the minimal `INTEGER_t` of the same value, for every OER constraint `{width, positive}`. -/
 theorem native_oer_eq_wide (width : Nat) (positive unsigned : Bool) (v : Int) (hv : fitsS64 v) (bs : Bytes)
@@ -137,9 +187,16 @@ theorem native_oer_eq_wide (width : Nat) (positive unsigned : Bool) (v : Int) (h
   unfold NativeInteger_encode_oer
   rw [nativeToINTEGER_eq_wide unsigned v hv bs hw hne hm hbs hun]
 
+/-- … unsigned native cell, whole `unsigned long` range -/
+theorem native_oer_unsigned_eq_wide (width : Nat) (positive : Bool) (u : Nat) (hu : u < 2 ^ 64) (bs : Bytes)
+    (hw : Bytes.wf bs) (hne : bs ≠ []) (hm : MinimalTwos bs) (hbs : twosVal bs = u) :
+    NativeInteger_encode_oer width positive true u = INTEGER_encode_oer width positive bs := by
+  unfold NativeInteger_encode_oer
+  rw [nativeToINTEGER_unsigned_eq_wide u hu bs hw hne hm hbs]
+
 /-- `INTEGER_encode_uper` does not depend on `field_unsigned` for non-negative `long` values and
     non-negative bounds (the wide build of `INTEGER (0..MAX)` has no specifics, the native one has
-    `field_unsigned = 1`). -/
+    `field_unsigned = 1`).  Values in 2^63 .. 2^64-1: finding F172, `INTEGER_encode_uper_unsigned_relevant_cex`. -/
 theorem INTEGER_encode_uper_unsigned_irrelevant (ct : Option PerCt) (bs : Bytes) (hw : Bytes.wf bs)
     (h0 : 0 ≤ twosVal bs) (h1 : twosVal bs < 2 ^ 63)
     (hct : ∀ c, ct = some c → 0 ≤ c.lb ∧ c.lb < 2 ^ 63 ∧ 0 ≤ c.ub ∧ c.ub < 2 ^ 63) :
@@ -152,7 +209,7 @@ theorem INTEGER_encode_uper_unsigned_irrelevant (ct : Option PerCt) (bs : Bytes)
     | none => rfl
     | some c =>
       obtain ⟨l0, l1, u0, u1⟩ := hct c rfl
-      have e1 : INTEGER2ulong bs = .ok (twosVal bs).toNat := INTEGER2ulong_partial bs hw h0 (by omega)
+      have e1 : INTEGER2ulong bs = .ok (twosVal bs).toNat := INTEGER2ulong_fits bs hw (by unfold fitsU64; omega)
       have e2 : INTEGER2long bs = .ok (twosVal bs) := by
         rw [INTEGER2long_spec bs hw, if_pos (by unfold fitsS64; omega)]
       have e3 : toSigned64 (twosVal bs).toNat = twosVal bs := by
@@ -166,6 +223,15 @@ theorem INTEGER_encode_uper_unsigned_irrelevant (ct : Option PerCt) (bs : Bytes)
           = decide (twosVal bs < c.lb ∨ twosVal bs > c.ub) := by
         apply decide_eq_decide.mpr; omega
       rw [d1, d2]
+
+/-- F172: beyond `LONG_MAX` the `field_unsigned` flag is *not* irrelevant: for `INTEGER (0..MAX)` (semi-constrained,
+    lower bound 0) holding 2^63 the native descriptor (`field_unsigned`) encodes `09 00 80 00 …`, while the
+    -fwide-types descriptor (no specifics) goes through `asn_INTEGER2long` and fails. -/
+theorem INTEGER_encode_uper_unsigned_relevant_cex :
+    twosVal [0, 0x80, 0, 0, 0, 0, 0, 0, 0] = 2 ^ 63 ∧
+    NativeInteger_encode_uper true (some ⟨false, true, -1, 0, 0⟩) (2 ^ 63) =
+      some (natBits 8 9 ++ bytesToBits [0, 0x80, 0, 0, 0, 0, 0, 0, 0]) ∧
+    INTEGER_encode_uper false (some ⟨false, true, -1, 0, 0⟩) [0, 0x80, 0, 0, 0, 0, 0, 0, 0] = none := by decide
 
 /-- **-fwide-types does not change UPER**: same bits (or the same failure) from the native cell and
     from the minimal `INTEGER_t` of the same value, for every PER value constraint; `unsN`/`unsW` are
@@ -184,6 +250,14 @@ theorem native_uper_eq_wide (unsN unsW : Bool) (ct : Option PerCt) (v : Int) (hv
     have hirr := INTEGER_encode_uper_unsigned_irrelevant ct bs hw (by rw [hbs]; exact h0)
       (by rw [hbs]; exact hv.2) hct
     cases unsN <;> cases unsW <;> simp_all
+
+/-- … unsigned native cell against a wide descriptor that also has `field_unsigned`: whole
+    `unsigned long` range, every PER value constraint -/
+theorem native_uper_unsigned_eq_wide (ct : Option PerCt) (u : Nat) (hu : u < 2 ^ 64) (bs : Bytes)
+    (hw : Bytes.wf bs) (hne : bs ≠ []) (hm : MinimalTwos bs) (hbs : twosVal bs = u) :
+    NativeInteger_encode_uper true ct u = INTEGER_encode_uper true ct bs := by
+  unfold NativeInteger_encode_uper
+  rw [nativeToINTEGER_unsigned_eq_wide u hu bs hw hne hm hbs]
 
 /-- **-fwide-types does not change XER** (text between the tags): the native `%ld`/`%lu` text equals
     what `INTEGER__dump` prints for any `INTEGER_t` denoting the same value, when the value has no
@@ -224,7 +298,7 @@ theorem native_xer_eq_wide (spN spW : Option IntSpecs) (v : Int) (hv : fitsS64 v
     by_cases hu : s.unsigned = true
     · have h0 := hun hu
       have e1 : INTEGER2umax bs = .ok v.toNat := by
-        rw [Asn1c.Props.C16.INTEGER2umax_partial bs hw (by rw [hbs]; exact h0), hbs, if_pos (by omega)]
+        rw [Asn1c.Props.C16.INTEGER2umax_spec bs hw, hbs, if_pos (by unfold fitsU64; omega)]
       have e3 : toSigned64 v.toNat = v := by rw [toSigned64_small _ (by omega)]; omega
       simp only [hu, if_true, e1, e3, value2enum, hmap, List.find?_nil, Option.map_none]
       have : wordOfLong v = v.toNat := by unfold wordOfLong; omega
@@ -235,6 +309,23 @@ theorem native_xer_eq_wide (spN spW : Option IntSpecs) (v : Int) (hv : fitsS64 v
     · have hu' : s.unsigned = false := by simpa using hu
       simp only [hu', Bool.false_eq_true, if_false, e2, value2enum, hmap, List.find?_nil, Option.map_none]
       simp
+
+/-- … unsigned native cell against a wide descriptor that also has `field_unsigned` (`%lu` versus
+    `INTEGER__dump`'s `asn_INTEGER2umax` + `PRIuMAX`): the same decimal text over the whole
+    `unsigned long` range -/
+theorem native_xer_unsigned_eq_wide (sN sW : IntSpecs) (hN : sN.unsigned = true) (hW : sW.unsigned = true)
+    (hmap : sW.map = []) (hstrict : sW.strict = false) (u : Nat) (hu : u < 2 ^ 64) (bs : Bytes)
+    (hw : Bytes.wf bs) (hbs : twosVal bs = u) :
+    NativeInteger_encode_xer (some sN) u = INTEGER_encode_xer (some sW) bs := by
+  have e1 : INTEGER2umax bs = .ok u := by
+    rw [Asn1c.Props.C16.INTEGER2umax_spec bs hw, hbs, if_pos (by unfold fitsU64; omega)]; simp
+  have e2 : wordOfLong (toSigned64 u) = u := by
+    unfold wordOfLong toSigned64
+    rw [Nat.mod_eq_of_lt hu]
+    split <;> omega
+  unfold NativeInteger_encode_xer INTEGER_encode_xer
+  simp only [hN, hW, hstrict, if_true, e1, value2enum, hmap, List.find?_nil, Option.map_none, e2,
+    Bool.false_eq_true, if_false, ite_self]
 
 /-! ### ENUMERATED: the wide codecs convert with `asn_INTEGER2long` and call the native ones -/
 
@@ -293,7 +384,7 @@ theorem names_irrelevant (n n' : TypeNames) (h : n.xmlTag = n'.xmlTag) (body : B
 /-! ### the hypotheses are satisfiable -/
 
 example : fitsS64 (-129) ∧ Bytes.wf [255, 255, 127] ∧ twosVal [255, 255, 127] = -129 ∧
-    NativeInteger_encode_der ⟨0, 2⟩ (wordOfLong (-129)) = [2, 2, 255, 127] ∧
+    NativeInteger_encode_der false ⟨0, 2⟩ (wordOfLong (-129)) = [2, 2, 255, 127] ∧
     INTEGER_encode_der ⟨0, 2⟩ [255, 255, 127] = [2, 2, 255, 127] := by decide
 example : NativeInteger_encode_oer 0 false false (wordOfLong (-129)) = some [2, 255, 127] ∧
     INTEGER_encode_oer 0 false [255, 127] = some [2, 255, 127] ∧
